@@ -61,7 +61,7 @@ def run(R, tier, seed, driver_ok):
                     est = SCML_Supervised(k_genuine=2, k_impostor=3, **params).fit(X, y)
                 else:
                     T = X[zoo.triplets_from(X, y, rng)]
-                    if rep % 4 == 3 and len(T) > d:
+                    if rep % 4 == 2 and len(T) > d:
                         # few triplets (d ≤ n_triplets < batch_size happens): the mini-batch is still drawn with replacement
                         T = T[rng.choice(len(T), size=int(rng.randint(d, min(len(T), d + 5) + 1)), replace=False)]
                     if len(T) < d:
